@@ -101,3 +101,32 @@ func HarnessC10File() {
 	verifAssert(len(cl2.Line) >= len(pre) && cl2.Line[:len(pre)] == pre, "C10.file.open-error-notice")
 	verifReach("C10.file.end")
 }
+
+// HarnessC10Path: the request path as the client sent it - escapes included - is what the file
+// notice shows.  The raw path is "/" followed by m characters from an alphabet that contains
+// the percent sign, hex digits of both cases, a letter and the slash; it is parsed by the real
+// net/url (as net/http does for a request line), so Path / RawPath are what a real request has.
+func HarnessC10Path() {
+	m := verifParam("m")
+	const alpha = "a%2Ff/41e."
+	raw := []byte{'/'}
+	for i := 0; i < m; i++ {
+		raw = append(raw, alpha[nondetChoice(len(alpha))])
+	}
+	u, err := url.ParseRequestURI(string(raw))
+	if err != nil {
+		verifReach("C10.path.unparsable") // net/http answers 400 itself, no handler runs
+		return
+	}
+	och := make(chan opshell.CLine, 8)
+	s := newC10Server(och)
+	r := &http.Request{RemoteAddr: "c:1", URL: u, RequestURI: string(raw)}
+	s.fileHandler(&nullRW{h: http.Header{}}, r)
+	cl := takeLine(och)
+	want := "[c] File requested: " + string(raw)
+	if verifCanary() {
+		want += "!"
+	}
+	verifAssert(cl.Line == want, "C10.path.request-path-shown-as-sent")
+	verifReach("C10.path.end")
+}
